@@ -382,6 +382,30 @@ def rule_codes(c, prog, R="C01.codes"):
                 c.violation(R, f"not-inverse|{inst}", f"{inst} is written as {sym.term_str(code, 3)} and that number reads back as {sym.term_str(back, 4)}", ff.sp, instance=inst)
 
 
+def rule_string_family(c, prog, R="C01.tbl"):
+    """every variant the String column writer accepts is a variant `from_rbx_type` sends to the String column"""
+    efn, em, earms = common.binary_encoder_arms(prog)
+    accepted = set()
+    for n in core.walk(earms["String"]["body"]):
+        if n.get("k") == "Match":
+            for a in n["arms"]:
+                for alt in tables.pat_alts(a["pat"]):
+                    if alt[0] == "ctor":
+                        accepted.add(vname(alt[1]))
+    frm = prog.fn(f"{TYPE_ENUM}::from_rbx_type")
+    fm, _, _ = tables.simple_map(frm)
+    to_string = {vname(k[1]) for k, v in fm.items() if k[0] == "v" and vname(v[1] if isinstance(v, tuple) else v) == "String"} if fm else set()
+    if not to_string:
+        to_string = {vname(k[1]) for k, v in fm.items() if k[0] == "v" and "String" in repr(v)}
+    c.floor(R, len(accepted), 4, "variants accepted by the String column writer")
+    for v in sorted(accepted):
+        inst = f"string-family:{v}"
+        if v in to_string:
+            c.ok(R, inst)
+        else:
+            c.violation(R, f"string-family|{v}", f"the String column writer of serialize_properties has an arm for Variant::{v}, but Type::from_rbx_type has no `VariantType::{v} => Type::String`: a property of that type which the database does not know (an unknown class, or a custom database) is refused with UnsupportedPropType although the writer knows how to store it", frm.sp, instance=inst)
+
+
 def run(c, prog):
     common.rule_configured_db(c, prog, "C01.cfgdb", ("rbx_binary",))
     common.rule_builders(c, prog, "C01.opts", ("rbx_binary",))
@@ -392,6 +416,7 @@ def run(c, prog):
     rule_uid(c, prog)
     rule_sstr_index(c, prog)
     rule_tbl(c, prog)
+    rule_string_family(c, prog)
     rule_ref(c, prog)
     from . import C01_rot, C01_alg, C01_arm
     C01_rot.run(c, prog)
